@@ -144,9 +144,23 @@ def coq_check_props(prop_file, timeout=900):
     return res
 
 
-def forbidden_scan():
+def coq_closure(pid):
+    """The .v files Properties/<pid>.v depends on (transitively), from coqdep."""
+    rc, out = sh(["coqdep", "-Q", "theories", "GoSecs", "-sort", "theories/Properties/%s.v" % pid], cwd=COQ, timeout=120)
+    files = [os.path.join(COQ, f) for f in out.split() if f.endswith(".v")]
+    return [f for f in files if os.path.exists(f)]
+
+
+def forbidden_scan(pid=None):
+    """Scan for Admitted/admit/Axiom/... With pid: the files that property's theorems depend on plus
+    its extraction file (so that another property's work in progress cannot fail this check); without:
+    the whole development (bin/vaudit, run before every release of the evidence)."""
     bad = []
-    for p in glob.glob(os.path.join(COQ, "theories", "**", "*.v"), recursive=True) + glob.glob(os.path.join(COQ, "extraction", "*.v")):
+    if pid:
+        files = coq_closure(pid) + glob.glob(os.path.join(COQ, "extraction", "Extract%s*.v" % pid))
+    else:
+        files = glob.glob(os.path.join(COQ, "theories", "**", "*.v"), recursive=True) + glob.glob(os.path.join(COQ, "extraction", "*.v"))
+    for p in files:
         for i, line in enumerate(open(p, errors="replace"), 1):
             code = re.sub(r"\(\*.*?\*\)", "", line)
             if FORBIDDEN.search(code):
@@ -378,8 +392,11 @@ def standard_check(prop, tier, custom=None):
         ok, log = run_translator()
         run.oblige("translator: Gen.v regenerated from /repo", ok, log)
         gen_ok = ok
-        bad = forbidden_scan()
-        run.oblige("no Admitted/admit/Axiom/Parameter/Conjecture/guard-off in the development", not bad, "\n".join(bad))
+        bad = forbidden_scan(pid) if gen_ok else []
+        run.oblige("no Admitted/admit/Axiom/Parameter/Conjecture/guard-off in any file Properties/%s.v depends on" % pid, not bad, "\n".join(bad))
+        allbad = forbidden_scan()
+        if allbad and not bad:
+            run.notes.append("forbidden tokens elsewhere in the development (not a dependency of this property): " + "; ".join(allbad[:5]))
         target = "theories/Properties/%s.vo" % pid
         if tier == "thorough" and os.environ.get("VERIF_CLEAN", "1") == "1" and prop.get("clean_thorough", False):
             sh(["make", "clean"], cwd=COQ, timeout=300)
